@@ -35,6 +35,7 @@ func (st *raftPersistStorage) SaveSnap(snap raftpb.Snapshot) error {
 	if err != nil {
 		return err
 	}
+	verifPoint("snap.file")
 	return st.WAL.SaveSnapshot(walsnap)
 }
 
